@@ -33,19 +33,50 @@ SEMANTIC = [
 ASSUMPTION_PAT = re.compile(r'\bassume\s*\(|\badmit\s*\(|external_body|assume_specification|exec_allows_no_decreases_clause|verifier::external\b')
 
 
-def verus_run(path, seed=0, multiple=24, rlimit=None, timeout=900):
+class _VerusSlot:
+    """At most N verus processes at a time across ALL concurrent ./check invocations on this machine (N = number of cores): a
+    slot is an flock on /verif/out/.slots/slot_<k>. Without it twenty checks started together run hundreds of solvers at once
+    and every one of them crawls past its timeout. Waiting for a slot does not count against the solver's time."""
+    def __enter__(self):
+        import fcntl
+        d = os.path.join(VERIF, "out", ".slots")
+        os.makedirs(d, exist_ok=True)
+        n = max(4, os.cpu_count() or 8)
+        start = os.getpid() % n
+        while True:
+            for i in range(n):
+                k = (start + i) % n
+                f = open(os.path.join(d, f"slot_{k}"), "w")
+                try:
+                    fcntl.flock(f, fcntl.LOCK_EX | fcntl.LOCK_NB)
+                    self.f = f
+                    return self
+                except OSError:
+                    f.close()
+            time.sleep(0.2)
+
+    def __exit__(self, *a):
+        import fcntl
+        try:
+            fcntl.flock(self.f, fcntl.LOCK_UN)
+        finally:
+            self.f.close()
+
+
+def verus_run(path, seed=0, multiple=24, rlimit=None, timeout=2400):
     cmd = ["verus", path, "--output-json", "--time-expanded", "--error-format=json", "--multiple-errors", str(multiple),
            "--triggers-mode", "silent"]
     if seed:
         cmd += ["--smt-option", f"smt.random_seed={seed}"]
     if rlimit:
         cmd += ["--rlimit", str(rlimit)]
-    t0 = time.time()
-    try:
-        # rustc writes `<file>.long-type-<hash>.txt` next to the cwd for long types in diagnostics: keep them in the out dir
-        r = subprocess.run(cmd, capture_output=True, text=True, timeout=timeout, cwd=os.path.dirname(os.path.abspath(path)) or None)
-    except subprocess.TimeoutExpired:
-        return {"cmd": " ".join(cmd), "timeout": True, "wall": time.time() - t0, "diags": [], "json": None, "rc": -1, "stderr": ""}
+    with _VerusSlot():
+        t0 = time.time()
+        try:
+            # rustc writes `<file>.long-type-<hash>.txt` next to the cwd for long types in diagnostics: keep them in the out dir
+            r = subprocess.run(cmd, capture_output=True, text=True, timeout=timeout, cwd=os.path.dirname(os.path.abspath(path)) or None)
+        except subprocess.TimeoutExpired:
+            return {"cmd": " ".join(cmd), "timeout": True, "wall": time.time() - t0, "diags": [], "json": None, "rc": -1, "stderr": ""}
     diags = []
     for line in r.stderr.splitlines():
         line = line.strip()
